@@ -701,13 +701,82 @@ class Inliner:
                         x.value = self.rewrite_expr(x.value, caller, stack, False)
         return e
 
+    def property_value(self, node, caller, stack):
+        """`self.p` with p a read-only property the rules do not know whose body is a ladder of if/return over `self`:
+        the expression it returns (the getter is evaluated at the same point, with the same sub-expressions)."""
+        if not (isinstance(node, ast.Attribute) and isinstance(node.ctx, ast.Load) and isinstance(node.value, ast.Name)):
+            return None
+        owner = caller
+        while owner.parent is not None:
+            owner = owner.parent
+        if owner.cls is None or not owner.params or node.value.id != owner.params[0] or owner.is_staticmethod or owner.is_classmethod:
+            return None
+        g = caller
+        while g is not owner:
+            if node.value.id in _bound_names(g.node) or node.value.id in g.params:
+                return None
+            g = g.parent
+        m = None
+        for c in owner.cls.mro:
+            if node.attr in c.methods:
+                m = c.methods[node.attr]
+                break
+            if node.attr in c.attrs:
+                return None
+        if m is None or not m.is_property or len(m.params) != 1 or not self.pred(m) or m.qual in stack + [self.f.qual]:
+            return None
+        for sub in owner.cls.all_subclasses():
+            if node.attr in sub.methods and sub.methods[node.attr] is not m:
+                return None
+        # a setter / deleter would make stores meaningful: only plain read-only properties
+        if any(d not in ("property",) for d in m.decorators):
+            return None
+        e = _ladder_expression(m.node.body)
+        if e is None:
+            return None
+        e = _Subst({m.params[0]: ast.Name(id=node.value.id, ctx=ast.Load())}, {}).visit(e)
+        for x in ast.walk(e):
+            ast.copy_location(x, node)
+        ast.fix_missing_locations(e)
+        self.expanded.append(m.qual)
+        return e
+
+    def inline_properties(self, st, caller, stack):
+        me = self
+
+        class P(ast.NodeTransformer):
+            def visit_FunctionDef(self, n):
+                return n
+            visit_AsyncFunctionDef = visit_FunctionDef
+            visit_ClassDef = visit_FunctionDef
+            visit_Lambda = visit_FunctionDef
+
+            def visit_Attribute(self, n):
+                self.generic_visit(n)
+                r = me.property_value(n, caller, stack)
+                return r if r is not None else n
+        for fld, v in ast.iter_fields(st):
+            if fld in ("body", "orelse", "finalbody", "handlers"):
+                continue
+            if isinstance(v, ast.expr):
+                setattr(st, fld, P().visit(v))
+            elif isinstance(v, list):
+                for i, x in enumerate(v):
+                    if isinstance(x, ast.expr):
+                        v[i] = P().visit(x)
+                    elif isinstance(x, ast.withitem):
+                        x.context_expr = P().visit(x.context_expr)
+
     def rewrite_stmt_exprs(self, st, caller, stack):
+        self.inline_properties(st, caller, stack)
         if isinstance(st, (ast.If, ast.While, ast.Assert)):
             st.test = self.rewrite_expr(st.test, caller, stack, False)
         elif isinstance(st, (ast.Assign, ast.AugAssign, ast.AnnAssign, ast.Return, ast.Expr)) and getattr(st, "value", None) is not None:
             st.value = self.rewrite_expr(st.value, caller, stack, True)
         elif isinstance(st, ast.For):
             st.iter = self.rewrite_expr(st.iter, caller, stack, False)
+        elif isinstance(st, ast.Raise) and st.exc is not None:
+            st.exc = self.rewrite_expr(st.exc, caller, stack, False)  # raise _make_error(...): the helper that builds it
 
     def hoist_test(self, st, caller, names, stack):
         """`if h(...):` with h an inlinable helper that is not a ladder -> `t = h(...); if t:` - exact when the call is
@@ -1282,6 +1351,8 @@ def reference_table(program):
         keys = {k: v for k, v in keys.items() if not _trivial_key(k)}
         a = f.node.args
         tab[q] = {"params": [x.arg for x in a.posonlyargs + a.args + a.kwonlyargs], "keys": keys}
+    from .model import member_shapes
+    tab["__shapes__"] = member_shapes({m.name: ast.parse(m.source) for m in program.modules.values()})
     tab["__globals__"] = {m.name: sorted(m.globals) for m in program.modules.values()}
     tab["__classattrs__"] = {c.qual: sorted(c.attrs) for c in program.classes.values()}
     return tab
@@ -2185,7 +2256,11 @@ def expand_attribute_aliases(func, keep_names, may_write):
         def transfer(n, label):
             h = IN[n.id]
             a = n.ast
-            if a is None or n.kind in ("dispatch", "join", "handler", "with_exit", "branch"):
+            if n.kind in ("with_enter", "with_exit"):
+                # a synchronisation point: while this thread did not hold the lock another one may have re-bound the
+                # attribute - the local and the attribute are not known to agree any more
+                return False
+            if a is None or n.kind in ("dispatch", "join", "handler", "branch"):
                 return h
             roots = [a]
             if n.kind == "iter":
@@ -2199,6 +2274,8 @@ def expand_attribute_aliases(func, keep_names, may_write):
                 for y in ast.walk(r):
                     if isinstance(y, ast.Call) and may_write(y, attr):
                         h = False
+                    if isinstance(y, ast.Call) and isinstance(y.func, ast.Attribute) and y.func.attr in ("acquire", "release", "wait"):
+                        h = False  # synchronisation point (see above)
                     if isinstance(y, ast.Attribute) and y.attr == attr and isinstance(y.ctx, (ast.Store, ast.Del)):
                         h = False
                 if isinstance(r, ast.Assign):
@@ -2305,7 +2382,7 @@ def thread_exit_flags(func, module_globals=None, sentinel_ok=None):
     changed = [False]
 
     def leaving(stmts):
-        return bool(stmts) and all(isinstance(x, (ast.Break, ast.Continue)) or (isinstance(x, ast.Return) and (x.value is None or isinstance(x.value, (ast.Constant, ast.Name)))) for x in stmts) \
+        return bool(stmts) and all(isinstance(x, (ast.Break, ast.Continue)) or (isinstance(x, ast.Return) and (x.value is None or isinstance(x.value, ast.Constant))) for x in stmts) \
             and len(stmts) == 1
 
     def parse_test(t):
@@ -2363,6 +2440,11 @@ def thread_exit_flags(func, module_globals=None, sentinel_ok=None):
             if isinstance(nxt, ast.If):
                 pt = parse_test(nxt.test)
                 lst = innermost(st)
+                if pt is not None and lst is not None:
+                    # the block's exit actions (finally clauses, with items) must leave the tested local alone
+                    inner_ids = {id(x) for y in lst for x in ast.walk(y)}
+                    if any(isinstance(x, ast.Name) and x.id == pt[0] and isinstance(x.ctx, (ast.Store, ast.Del)) and id(x) not in inner_ids for x in ast.walk(st)):
+                        lst = None
                 if pt is not None and lst is not None and (leaving(nxt.body) != leaving(nxt.orelse) or (leaving(nxt.body) and not nxt.orelse)):
                     v, sent, sense = pt
                     j = lst[-1]
@@ -2379,6 +2461,24 @@ def thread_exit_flags(func, module_globals=None, sentinel_ok=None):
                                 tv, fv, flagdef = False, True, p0
                     if tv is None:
                         tv, fv = arm_value(j.body, v, sent), arm_value(j.orelse, v, sent)
+                        # an arm that leaves the local alone keeps what it was bound to on the way in: a constant assigned
+                        # at the top level of the block (or just before it), with no store to it in between
+                        if (tv is None) != (fv is None) and sent is None:
+                            def stores(x):
+                                return any(isinstance(y, ast.Name) and y.id == v and isinstance(y.ctx, (ast.Store, ast.Del)) for y in ast.walk(x))
+                            incoming = None
+                            for prev in list(reversed(lst[:-1])) + list(reversed(body[:i])):
+                                if isinstance(prev, ast.Assign) and len(prev.targets) == 1 and isinstance(prev.targets[0], ast.Name) and prev.targets[0].id == v and isinstance(prev.value, ast.Constant):
+                                    incoming = bool(prev.value.value)
+                                    break
+                                if stores(prev):
+                                    break
+                            quiet = j.orelse if tv is not None else j.body
+                            if incoming is not None and not any(stores(x) for x in quiet) and not any(stores(w) for w in [j.test]):
+                                if tv is None:
+                                    tv = incoming
+                                else:
+                                    fv = incoming
                     if tv is not None and fv is not None and tv != fv:
                         # outcome of the test `nxt.test` in each arm
                         t_true_arm = j.body if (tv == sense) else j.orelse      # arm in which nxt.test comes out true
@@ -2442,6 +2542,81 @@ def attributes_from_constant_getattr(func):
                 return ast.copy_location(ast.Attribute(value=n.args[0], attr=n.args[1].value, ctx=ast.Load()), n)
             return n
     G().visit(node)
+    ast.fix_missing_locations(node)
+    nf = Func(func.qual, node, func.module, func.cls, func.parent)
+    nf.inlined_from = list(getattr(func, "inlined_from", []))
+    return nf
+
+
+def split_named_expressions(func):
+    """`if (x := E) ...:` -> `x = E; if x ...:` when the assignment expression is the first thing the test evaluates, and
+    `while (x := E) ...: B` -> `while True: x = E; if not (x ...): break; B` (no else clause).  Exact: same evaluations,
+    same order.  Elsewhere an assignment expression is left alone."""
+    if not any(isinstance(x, ast.NamedExpr) for x in walk_own(func.node)):
+        return func
+    node = _copy(func.node)
+    changed = [False]
+
+    def lead(e):
+        """(parent, field/index) of a NamedExpr that is evaluated first in e, or None"""
+        if isinstance(e, ast.NamedExpr):
+            return e
+        if isinstance(e, ast.UnaryOp) and isinstance(e.op, ast.Not):
+            return lead(e.operand)
+        if isinstance(e, ast.BoolOp):
+            return lead(e.values[0])
+        if isinstance(e, ast.Compare):
+            return lead(e.left)
+        if isinstance(e, ast.Call) and isinstance(e.func, ast.Attribute):
+            return lead(e.func.value)
+        if isinstance(e, ast.Attribute):
+            return lead(e.value)
+        return None
+
+    def replace(e, ne):
+        class R(ast.NodeTransformer):
+            def visit_NamedExpr(self, n):
+                if n is ne:
+                    return ast.copy_location(ast.Name(id=ne.target.id, ctx=ast.Load()), n)
+                return self.generic_visit(n)
+        return R().visit(e)
+
+    def block(body):
+        out = []
+        for st in body:
+            for fld in ("body", "orelse", "finalbody"):
+                sub = getattr(st, fld, None)
+                if isinstance(sub, list) and sub and isinstance(sub[0], ast.stmt) and not isinstance(st, (ast.FunctionDef, ast.AsyncFunctionDef, ast.ClassDef)):
+                    setattr(st, fld, block(sub))
+            if isinstance(st, ast.Try):
+                for h in st.handlers:
+                    h.body = block(h.body)
+            if isinstance(st, ast.If):
+                pre = []
+                for _ in range(4):
+                    ne = lead(st.test)
+                    if ne is None or not isinstance(ne.target, ast.Name) or pre:
+                        break
+                    pre.append(ast.copy_location(ast.Assign(targets=[ast.copy_location(ast.Name(id=ne.target.id, ctx=ast.Store()), ne)], value=ne.value, type_comment=None), st))
+                    st.test = replace(st.test, ne)
+                    changed[0] = True
+                out.extend(pre)
+                out.append(st)
+                continue
+            if isinstance(st, ast.While) and not st.orelse:
+                ne = lead(st.test)
+                if ne is not None and isinstance(ne.target, ast.Name):
+                    a = ast.copy_location(ast.Assign(targets=[ast.copy_location(ast.Name(id=ne.target.id, ctx=ast.Store()), ne)], value=ne.value, type_comment=None), st)
+                    t = replace(st.test, ne)
+                    g0 = ast.copy_location(ast.If(test=ast.copy_location(ast.UnaryOp(op=ast.Not(), operand=t), t), body=[ast.copy_location(ast.Break(), st)], orelse=[]), st)
+                    st.test = ast.copy_location(ast.Constant(value=True), st)
+                    st.body = [a, g0] + st.body
+                    changed[0] = True
+            out.append(st)
+        return out
+    node.body = block(node.body)
+    if not changed[0]:
+        return func
     ast.fix_missing_locations(node)
     nf = Func(func.qual, node, func.module, func.cls, func.parent)
     nf.inlined_from = list(getattr(func, "inlined_from", []))
@@ -2547,12 +2722,14 @@ def comprehensions_from_append_loops(func, keep_names=()):
         return ast.copy_location(ast.Assign(targets=a.targets, value=ast.copy_location(comp, b), type_comment=None), a)
     hit = [False]
 
-    def block(body, after_outer):
+    def block(body, after_outer, in_try=False):
         out = []
         i = 0
         while i < len(body):
             st = body[i]
-            if i + 1 < len(body):
+            if i + 1 < len(body) and not in_try:
+                # (inside a try an exception raised half-way leaves the accumulator partly filled in one form and
+                # untouched in the other: a handler could tell)
                 m = match(st, body[i + 1], body[i + 2:] + after_outer)
                 if m is not None:
                     out.append(m)
@@ -2564,10 +2741,10 @@ def comprehensions_from_append_loops(func, keep_names=()):
                 if isinstance(sub, list) and sub and isinstance(sub[0], ast.stmt) and not isinstance(st, (ast.FunctionDef, ast.AsyncFunctionDef, ast.ClassDef)):
                     # inside a loop the statements before also run "after" (next iteration): be conservative
                     aft = body[i + 1:] + after_outer + ([st] if isinstance(st, (ast.For, ast.While)) else [])
-                    setattr(st, fld, block(sub, aft))
+                    setattr(st, fld, block(sub, aft, in_try or isinstance(st, ast.Try)))
             if isinstance(st, ast.Try):
                 for h in st.handlers:
-                    h.body = block(h.body, body[i + 1:] + after_outer)
+                    h.body = block(h.body, body[i + 1:] + after_outer, True)
             out.append(st)
             i += 1
         return out
